@@ -41,35 +41,45 @@ def build(coqdir, targets, timeout=3000, log=None):
 
     for t in targets:
         visit(t[:-1] if t.endswith(".vo") else t)
+    import concurrent.futures as cf, threading
+    depmap = {v: deps(coqdir, v) for v in order}
     rebuilt = set()
     out = []
-    for v in order:
+    mu = threading.Lock()
+
+    def one(v):
+        """returns (ok, text); compiles v if it is out of date w.r.t. its source or its dependencies"""
         vo = os.path.join(coqdir, v + "o")
         src = os.path.join(coqdir, v)
         need = not os.path.exists(vo) or os.path.getmtime(vo) < os.path.getmtime(src)
         if not need:
-            for d in deps(coqdir, v):
+            for d in depmap[v]:
                 dvo = os.path.join(coqdir, d + "o")
-                if d in rebuilt or os.path.getmtime(dvo) > os.path.getmtime(vo):
+                with mu:
+                    dr = d in rebuilt
+                if dr or os.path.getmtime(dvo) > os.path.getmtime(vo):
                     need = True
                     break
         if not need:
-            continue
+            return True, ""
         lock = open(vo + ".lock", "w")
         fcntl.flock(lock, fcntl.LOCK_EX)
         try:
             # another process may have built it while we waited
-            if os.path.exists(vo) and os.path.getmtime(vo) >= os.path.getmtime(src) and not any(d in rebuilt for d in deps(coqdir, v)) \
-               and all(os.path.getmtime(os.path.join(coqdir, d + "o")) <= os.path.getmtime(vo) for d in deps(coqdir, v)):
-                continue
+            with mu:
+                anyr = any(d in rebuilt for d in depmap[v])
+            if os.path.exists(vo) and os.path.getmtime(vo) >= os.path.getmtime(src) and not anyr \
+               and all(os.path.getmtime(os.path.join(coqdir, d + "o")) <= os.path.getmtime(vo) for d in depmap[v]):
+                return True, ""
             r = subprocess.run(["timeout", str(timeout), "coqc", "-q", "-Q", ".", "Kava", "-w", WARN, v], cwd=coqdir,
                                stdout=subprocess.PIPE, stderr=subprocess.STDOUT, text=True)
-            out.append("COQC %s\n%s" % (v, r.stdout))
             if log:
                 log("COQC " + v)
             if r.returncode:
-                return False, "\n".join(out)
-            rebuilt.add(v)
+                return False, "COQC %s\n%s" % (v, r.stdout)
+            with mu:
+                rebuilt.add(v)
+            return True, "COQC %s\n%s" % (v, r.stdout)
         finally:
             fcntl.flock(lock, fcntl.LOCK_UN)
             lock.close()
@@ -77,6 +87,28 @@ def build(coqdir, targets, timeout=3000, log=None):
                 os.unlink(vo + ".lock")
             except OSError:
                 pass
+
+    # independent files compile in parallel (a file starts when all it Requires are done)
+    jobs = int(os.environ.get("COQBUILD_JOBS", "0")) or min(12, os.cpu_count() or 1)
+    done, pending, running = set(), list(order), {}
+    with cf.ThreadPoolExecutor(max_workers=jobs) as ex:
+        while pending or running:
+            for v in [v for v in pending if all(d in done for d in depmap[v])]:
+                pending.remove(v)
+                running[ex.submit(one, v)] = v
+            if not running:
+                raise RuntimeError("dependency order stuck at " + ", ".join(pending[:3]))
+            fin, _ = cf.wait(list(running), return_when=cf.FIRST_COMPLETED)
+            for f in fin:
+                v = running.pop(f)
+                ok, text = f.result()
+                if text:
+                    out.append(text)
+                if not ok:
+                    for g in running:
+                        g.cancel()
+                    return False, "\n".join(out)
+                done.add(v)
     return True, "\n".join(out)
 
 
